@@ -448,6 +448,38 @@ def r4_resets(ctx):
         captured_before(efc, rel, rel.args[2], work, "call")
 
 
+def host_colocation(ctx):
+    """Handle and payload of a host value are built on the same arena (shared with C16-R5: captured output that dangles is not
+    the output the child produced)."""
+    # A host value is a handle plus a payload (a command's texts, a result's captured output).  HostHandle::promote decides
+    # from the *handle's* address alone whether the value has to be copied off the frame, so handle and payload have to be
+    # allocated on the same arena wherever a host value is built: a payload on the frame behind a persistent handle is never
+    # copied and dangles after the next frame reset.
+    nh = 0
+    arena_re = re.compile(r"\bself\.(?:frame|arena)\b|\barena\(&?\*?(?:self\.)?pool\)|(?<![\w.])arena(?![\w(])")
+    for fn in sorted(ctx.lib.fns.values(), key=lambda f: (f.file, f.line, f.id)):
+        if not fn.file.startswith("src/"):
+            continue
+        for c in fn.calls():
+            if not (c.callee or "").endswith("HostHandle::new_in") or len(c.args) < 2:
+                continue
+            nh += 1
+            ctx.touch(fn)
+            home = sh(ne(fn.deep(c.args[0]))).lstrip("&*")
+            payload = sh(ne(fn.deep(c.args[1])))
+            # arenas handed to the routines that build the payload (the scratch vector of evaluated arguments is not payload)
+            payload_wo_tmp = re.sub(r"with_capacity_in\(len\([^()]*\),self\.frame\)", "tmp", payload)
+            used = set(m.group(0).replace("&", "").replace("*", "") for m in arena_re.finditer(payload_wo_tmp))
+            short = parent_fn(fn.id).split("::")[-1]
+            ordn = sum(1 for r in ctx.records if r["rule"] == ctx.rule and r["instance"].startswith("host-colocation|%s#" % short))
+            other = sorted(u for u in used if u != home)
+            if not other:
+                ctx.ok("host-colocation|%s#%d" % (short, ordn + 1), fn.where(c.block), "handle and payload on `%s`" % home)
+            else:
+                ctx.bad("host-colocation|%s|%s-vs-%s" % (short, home[:16], other[0][:16]), fn.where(c.block), "%s builds a host value whose handle lives on `%s` while its payload is allocated on `%s`: HostHandle::promote looks only at the handle, so the payload is never copied off that arena - a captured output / configured text on the frame behind a persistent handle reads recycled memory after the next frame reset" % (short, home, other[0]))
+    ctx.floor("host values built (handle + payload)", nh, 4)
+
+
 def r5_promotion_complete(ctx):
     vp = ctx.need(PROMOTE)
     ctx.touch(vp)
@@ -604,6 +636,7 @@ def r5_promotion_complete(ctx):
                 else:
                     ctx.bad("frame-argument|%s|%s" % (short, got[:20]), fn.where(c.block), "%s calls %s with `%s` where the frame arena belongs: the routine then tests containment in the wrong arena, so a string that only borrows frame memory is stored uncopied and changes when the frame is reused" % (short, c.callee.split("::")[-1], got))
     ctx.floor("calls of the copy routines from the runtime", ncall, 8)
+    host_colocation(ctx)
     cp = ctx.need("arena::cow::ArenaCow::promote")
     ctx.touch(cp)
     # pass-through aggregates
@@ -1010,6 +1043,9 @@ EXPLANATION = (
 )
 EXPLANATION += (
     " R7: every call that can grow a script array reached by reference (the value of a variable slot) is reached only with the array on the persistent arena - either every slot, parameters included, is built from a promoted value, or every path to the growth site passes the true side of `ptr::eq(array.allocator(), <persistent>)` or a store of a vector built on the persistent arena; otherwise the new buffer of a push inside a loop body lies above the frame mark of the iteration (one genuine defect, D29, found and repaired)."
+)
+EXPLANATION += (
+    ' R4 also (= C11-R2): Arena::reset leaves the watermark at exactly its argument, and the debug wrapper forwards the argument unchanged.'
 )
 ASSUMPTIONS = ["values reach variables only through the sinks discovered by type in runtime.rs", "cfg(test)/wasm/windows code not analysed"]
 TRUSTED = ["rustc nightly MIR construction", "nsx exporter", "nsverif dominance / provenance (flow-insensitive over defs of a local)"]
